@@ -135,7 +135,7 @@ func c20R6Patterns(h H) {
 // kept for reference and no longer registered.
 func c20R7(h H) {
 	r := h.r
-	r.Rule("R7", "the log handler as a decision table (E10): Logger.ServeHTTP, evaluated for one and two rules (scope matching or not), two entries per rule (excepted or not), a next handler that rewrites r.URL.Path in place and reports 200 or an unwritten 404, with and without a custom error function: the except test of every entry is given the path as the client sent it, and every non-excepted entry of the governing rule gets exactly one line, every excepted one none", 2)
+	r.Rule("R7", "the log handler as a decision table (E10): Logger.ServeHTTP, evaluated for one and two rules (scope matching or not), two entries per rule (excepted or not), a next handler that rewrites r.URL.Path in place and reports 200 or an unwritten 404, with and without a custom error function: the except test of every entry is given the path as the client sent it, and every non-excepted entry of the governing rule gets exactly one line, every excepted one none; with two entries of which one or both have an ipmask, the client address is masked exactly in the lines of those", 3)
 	t := loggerTable(h)
 	var pos token.Pos
 	if fn := h.p.Func(logPkg, "Logger.ServeHTTP"); fn != nil {
@@ -144,6 +144,7 @@ func c20R7(h H) {
 	n := sprintf("%d cases evaluated", t.n)
 	r.Check(t.path == "" && t.other == "", "R7", "(log.Logger).ServeHTTP/except-tests-received-path", pos, "whether a request is excepted from logging is decided by the path the client sent", n, t.path, t.other)
 	r.Check(t.lines == "" && t.other == "", "R7", "(log.Logger).ServeHTTP/one-line-per-entry", pos, "every configured log of the governing rule that is not excepted gets exactly one line per request", n, t.lines, t.other)
+	r.Check(t.mask == "" && t.other == "", "R7", "(log.Logger).ServeHTTP/ipmask-per-entry", pos, "the client address is masked in the lines of the logs that have an ipmask, and only there", n, t.mask, t.other)
 }
 
 func c20R7Patterns(h H) {
